@@ -58,6 +58,23 @@ def gen_case(rng):
     # a configured tolerance (the gaps 0.5 / 1.25 are inside a tolerance of 0.5 and outside the default 0.1): reset() must keep
     # the configuration, only the counters start again
     c["tol"] = 0.5 if rng.random() < 0.4 else None
+    # an update after the reset that leaves a variable out: a fresh monitor reads the initial value 0.0 of the variable (later
+    # its last supplied value), so must the monitor that was reset (F50).  The data holds the effective values; `omit` lists the
+    # (variable, update) entries that are not sent.
+    c["omit"] = []
+    vs = c02.all_vars(c) or ["a"]
+    if rng.random() < 0.3:
+        for i in range(npre, c["n"]):
+            for v in vs:
+                if rng.random() < 0.35 and v in c["data"]:
+                    c["omit"].append([v, i])
+                    c["data"][v][i] = 0.0 if i == npre else c["data"][v][i - 1]
+    # reset() before the first update, the sampling period configured after it (F51): the period in force at the first update
+    # counts.  The mirror runs with bounds in samples of 1 s: not compared in this variant.
+    c["late_period"] = None
+    if npre == 0 and rng.random() < 0.5:
+        c["late_period"] = rng.choice([[500, "ms"], [250, "ms"], [2, "s"]])
+        c["tol"] = None
     return c
 
 
@@ -67,12 +84,21 @@ def run_impl(case):
     extra = [nm for nm, _ in case["asserts"][:-1]] if case["asserts"] else []
     data, npre, n, ts = case["data"], case["npre"], case["n"], case["ts"]
 
-    def mk():
-        spec = impl.make_spec("ond", text, vs, extra_decl=extra, sampling=(1, "s", case["tol"]) if case.get("tol") else None)
+    omit = set((v, i) for v, i in case.get("omit", ()))
+    late = case.get("late_period")
+
+    def mk(fresh=False):
+        samp = (1, "s", case["tol"]) if case.get("tol") else None
+        if late and fresh:
+            samp = tuple(late)
+        spec = impl.make_spec("ond", text, vs, extra_decl=extra, sampling=samp)
         spec.parse()
         if case["pastify"]:
             spec.pastify()
         return spec
+
+    def row(i):
+        return [(v, data[v][i]) for v in vs if (v, i) not in omit]
 
     def go():
         a = mk()
@@ -83,10 +109,22 @@ def run_impl(case):
             if i in case.get("early_resets", ()):
                 a.reset()
         a.reset()
+        if late:
+            a.set_sampling_period(*late)
         cnt_after_reset = a.sampling_violation_counter
-        outs_a = [a.update(ts[i] - ts[npre], [(v, data[v][i]) for v in vs]) for i in range(npre, n)]
-        b = mk()
-        outs_b = [b.update(ts[i] - ts[npre], [(v, data[v][i]) for v in vs]) for i in range(npre, n)]
+        k = (late[0] / 1000.0 if late[1] == "ms" else float(late[0])) if late else 1.0
+
+        def feed(m):
+            # an RTAMTException (a bound that is no multiple of the late period) is an outcome both monitors must share
+            try:
+                return [m.update((ts[i] - ts[npre]) * k, row(i)) for i in range(npre, n)]
+            except Exception as e:
+                if not late:
+                    raise
+                return ["raised " + type(e).__name__]
+        outs_a = feed(a)
+        b = mk(fresh=True)
+        outs_b = feed(b)
         return outs_a, outs_b, cnt_after_reset, a.sampling_violation_counter, b.sampling_violation_counter
     return text, impl.guarded(go)
 
@@ -118,13 +156,26 @@ def model(cases):
 
 def check_case(ctx, case, m):
     text, res = run_impl(case)
-    rep = {"tol": case.get("tol"), "spec": text, "formula": F.to_proto(case["f"]), "pastify": case["pastify"], "data": case["data"], "ts": case["ts"],
+    rep = {"tol": case.get("tol"), "omit": case.get("omit", []), "late_period": case.get("late_period"), "spec": text, "formula": F.to_proto(case["f"]), "pastify": case["pastify"], "data": case["data"], "ts": case["ts"],
            "npre": case["npre"], "early_resets": case.get("early_resets", []), "n": case["n"], "asserts": [[nm, F.to_proto(b)] for nm, b in case["asserts"]] if case["asserts"] else None,
            "impl": res, "model_post_outputs": m}
     if res[0] != "ok":
         return Violation("reset()/update() raised %r (history of %d updates): %s" % (res[1:], case["npre"], text.replace("\n", " ")),
                          rep, stream=case["stream"]), None
     outs_a, outs_b, cnt0, cnt_a, cnt_b = res[1]
+    if case.get("late_period"):
+        ctx.count("late-period")
+        floats = all(isinstance(x, float) for x in outs_a + outs_b)
+        if not (same_vals(outs_a, outs_b) if floats else outs_a == outs_b):
+            return Violation("reset() before the first update, then set_sampling_period(%r): updates return %r, a monitor configured "
+                             "with that period before its first update returns %r: %s" % (case["late_period"], outs_a, outs_b,
+                             text.replace("\n", " ")), rep, stream=case["stream"]), None
+        if cnt0 != 0 or cnt_a != cnt_b:
+            return Violation("sampling_violation_counter after reset() is %r, then %r; fresh monitor: %r: %s"
+                             % (cnt0, cnt_a, cnt_b, text.replace("\n", " ")), rep, stream=case["stream"]), None
+        return None, None
+    if case.get("omit"):
+        ctx.count("omitted-variable-after-reset")
     if disc.nontrivial(outs_b):
         ctx.nontrivial.add(disc.data_key(text, case["data"]) + (case["npre"],))
     if not same_vals(outs_a, outs_b):
@@ -179,7 +230,7 @@ def replay(ctx, obj):
     c = {"stream": "replay", "f": F.from_proto(obj["formula"]), "pastify": obj["pastify"], "npre": obj["npre"], "n": obj["n"],
          "npost": obj["n"] - obj["npre"], "ts": obj["ts"], "tol": obj.get("tol"), "data": {k: [float(x) for x in v] for k, v in obj["data"].items()},
          "asserts": [(nm, F.from_proto(b)) for nm, b in obj["asserts"]] if obj.get("asserts") else None,
-         "early_resets": obj.get("early_resets", [])}
+         "early_resets": obj.get("early_resets", []), "omit": obj.get("omit", []), "late_period": obj.get("late_period")}
     m, = model([c])
     v, d = check_case(Ctx(ctx.id, ctx.tier, ctx.seed), c, m)
     return (v is None), (v.what if v else "reset monitor behaves like a fresh one on the replayed case")
